@@ -39,7 +39,7 @@ PROPS = {
         "explanation": "numeric kernels of steel-core extracted verbatim and checked against mathematical-integer specs with Kani",
     },
     "C07": {
-        "units": ["num"],
+        "units": ["num", "vm"],
         "trusted_base": COMMON_TB + ["units/num/prelude.rs (see C10)"],
         "assumptions": [
             "only panic-freedom of the numeric built-ins on every scalar argument kind and magnitude is decided; arbitrary source text, native stack overflow and engine recovery after errors are NOT covered",
